@@ -5,6 +5,7 @@ import Ps3.Model.Tools
 import Ps3.Proof.Viso
 import Ps3.Proof.Crypt
 import Ps3.Props.C10
+import Ps3.Proof.BuildWF
 namespace Ps3.Props.C20
 open Ps3 Ps3.Tools Ps3.Viso Ps3.Spec.Viso Ps3.Crypt Ps3.Proof.Slice
 
@@ -29,6 +30,13 @@ theorem makeiso_eq_view (img : Image) (cf : Nat → Content) (h : WF img cf) (cs
   have hlen := Proof.Viso.flat_length img cf h
   rw [hrd, copy_is_slice _ 0 cs (by omega), hs, ← hlen]
   exact slice_zero_all _ _ (Nat.le_refl _)
+
+/-- Unconditionally: for every tree make-iso's output (any chunking of the copy) is the canonical
+    byte string of the image the server would announce and serve for that tree. -/
+theorem makeiso_built (w : World) (root : Path) (ps3 : Bool) (clk : Clock) (filler : Bytes) (img : Image)
+    (h : build w root ps3 clk filler = some img) (cs : List Nat) (hs : cs.sum = img.totalSize) :
+    copyChunks (img.read (Proof.BuildWF.cfOf w)) 0 cs = flat img (Proof.BuildWF.cfOf w) :=
+  makeiso_eq_view img _ (Proof.BuildWF.build_wf w root ps3 clk filler img h) cs hs
 
 /-- decrypt writes exactly the reference plaintext with the region table blanked: for a table of
     `h` header bytes the whole-file read is `h` zeros followed by the plaintext from `h` on. -/
